@@ -512,6 +512,15 @@ def stranded_reason(h, pid, p, opens):
     """causal discriminator for a stuck process"""
     if h.hook_stall(pid):
         return 'hook-child-finished-last:' + h.hook_stall(pid)
+    # a client action accepted on an act that had been left open below a parent that had already ended (what C03 reports
+    # as an abandoned task): what that action sets off runs outside the live part of the tree
+    for a in h.actions:
+        if a['ok'] and a['pid'] == pid and a['action'] not in ('push', 'set_process_vars'):
+            par = h.parent((pid, a['tid']))
+            if par:
+                ended = [e for e in h.states if (e['pid'], e['tid']) == par and e['new'] in TERM and e['seq'] < a['call']]
+                if ended:
+                    return f"action-on-act-of-ended-parent:{ended[0]['new']}"
     pend = [t for t in opens if t['state'] == 'pending']
     if pend:
         # was the deciding sibling already terminal before this branch was initialised?
